@@ -39,9 +39,15 @@ Definition hex_pair (p : str) : Prop := length p = 2%nat /\ Forall hex_char p.
 Definition mac_text (s : str) : Prop :=
   exists ps, length ps = 6%nat /\ Forall hex_pair ps /\ s = colons ps.
 
-(* contract of the library oracles (netaddr.IPNetwork, netaddr.valid_ipv4 with INET_ATON)
-   on a str argument: they return, or raise one of these three classes *)
-Definition lib_contract (r : ares) : bool :=
+(* contracts of the library oracles on a str argument: they return, or raise one of the
+   listed classes.  netaddr.valid_ipv4(s, INET_ATON): ValueError (argument conversion in
+   inet_aton) or AddrFormatError; netaddr.IPNetwork(s[, version=6]): these or TypeError. *)
+Definition aton_contract (r : ares) : bool :=
+  match r with
+  | AOk _ => true
+  | ARaise e => caught [AValueError; AAddrFormatError] e
+  end.
+Definition net_contract (r : ares) : bool :=
   match r with
   | AOk _ => true
   | ARaise e => caught [AValueError; ATypeError; AAddrFormatError] e
